@@ -69,6 +69,9 @@ def frame_pool(rng, extra_ubx=()):
     for body in ("GNGGA,x,y,z", "GNGSV,x,y,z", "GNGGA,092204.999,4250.5589,S,14718.5084,E,1,0x,24.4,19.7,M,,,,0000", "GNRMC,abc,V,,,,,,,zz,,,N",
                  "GNVTG,,T,,M,a,N,b,K,N", "GPGSA,A,3,1,2,x", "G", "GN"):
         out.append((nmea_line(body), "NMEA"))
+    # valid sentences terminated by a bare LF (no CR)
+    for body in ("GNGLL,5327.04319,N,00214.41396,W,223232.00,A,A", "GNRMC,084159.00,A,3203.94995,N,03446.42914,E,0.000,,080222,,,D,V"):
+        out.append((nmea_line(body).replace(b"\r\n", b"\n"), "NMEA"))
     out.append((b"$GNGLL,5327.04319,N*00\r\n", "NMEA"))  # bad checksum
     out.append((b"$G\n", "NMEA"))
     out.append((b"$P\r\n", "NMEA"))
@@ -89,9 +92,30 @@ def frame_pool(rng, extra_ubx=()):
     out.append((frame(0x01, 0x07, rng.randbytes(92)), "UBX"))
     out.append((frame(0x01, 0x07, rng.randbytes(91)), "UBX"))
     out.append((frame(0x0A, 0x04, bytes(40)), "UBX"))
+    # frames within frames: a UBX / RTCM3 frame whose payload is itself a complete valid frame of some protocol
+    inner = [frame(0x05, 0x01, b"\x06\x01"), nmea_line("GNGLL,5327.04319,N,00214.41396,W,223232.00,A,A"), rtcm_frame(bytes(5)), frame(0x06, 0x00, b"")]
+    for x in inner:
+        out.append((frame(0x04, 0x04, x), "UBX"))
+        out.append((frame(0x77, 0x01, b"\x00" + x + b"\x00\x00"), "UBX"))
+        if b"\n" not in x:
+            out.append((rtcm_frame(b"\x00\x00" + x), "RTCM"))
     for n in (254, 255, 256, 257, 258, 511, 512, 1000, 6000):  # lengths around byte boundaries and long frames
         out.append((frame(0x77, n & 0xFF, rng.randbytes(n)), "UBX"))
         out.append((frame(0x02, 0x15, rng.randbytes(n)), "UBX"))
+    return out
+
+
+def nested_frames(rng):
+    """frames whose payload contains complete valid frames of the three protocols (adversarial for any re-scanning of partial data)"""
+    inner = [frame(0x05, 0x01, b"\x06\x01"), frame(0x05, 0x00, b"\x06\x8a"), nmea_line("GNGLL,5327.04319,N,00214.41396,W,223232.00,A,A"),
+             rtcm_frame(bytes(5)), frame(0x06, 0x00, b"")]
+    out = []
+    for x in inner:
+        out.append((frame(0x04, 0x04, x), "UBX"))
+        out.append((frame(0x77, 0x01, b"\x00" + x + b"\x00\x00"), "UBX"))
+        out.append((frame(0x77, 0x02, x + rng.choice(inner) + b"\x01\x02\x03"), "UBX"))
+        if b"\n" not in x:
+            out.append((rtcm_frame(b"\x00\x00" + x + b"\x00"), "RTCM"))
     return out
 
 
@@ -188,7 +212,7 @@ def obs_runs(case):
         data = S if cut < 0 else S[:cut]
         r = rd.run_reader(data, filt=pl.get("filter", 7), quit=pl.get("quit", 1), parsing=bool(pl.get("parsing", 1)),
                           handler=bool(pl.get("handler", 1)), msgmode=mm, validate=va, pbf=pbf,
-                          keep_reads=bool(pl.get("reads", 0)), labelmsm=lm)
+                          keep_reads=bool(pl.get("reads", 0)), labelmsm=lm, bursts=case.get("bursts", ()), kind=case.get("streamkind", "min"))
         r["cut"] = cut
         r["reads"] = 1 if pl.get("reads", 0) else 0
         raw_runs.append(r)
